@@ -164,56 +164,91 @@ def object_value(snap, obj):
     return snap["out"][int(obj[1:])]
 
 
+def coq_rule(r):
+    if r["kind"] == "set":
+        return "(mkRule %s %d%%N ASet %s %s %s)" % ("TRel" if r.get("period") else "TAbs", r.get("period") or r["tick"], C.cq_string(r["obj"]),
+                                                    C.cq_string(str(r["val"])), C.cq_bool(bool(r.get("suspended"))))
+    T = {"abs": "TAbs", "rel": "TRel", "onvalid": "TOnValid", "onexit": "TOnExit"}
+    return "(mkRule %s %d%%N AShow %s %s %s)" % (T[r["when"]], r.get("period") or r.get("tick") or 0, C.cq_string(r["obj"]), C.cq_string("unsigned"),
+                                                 C.cq_bool(bool(r.get("suspended"))))
+
+
+SIMRUN_HDR = ("From Coq Require Import String NArith List Bool.\nFrom BM Require Import Front.Simbox Front.SimRun Front.SimRunCheck.\n"
+              "Import ListNotations.\nLocal Open Scope string_scope.\n")
+
+
 def dynamic_shows(res, rnd, a):
     """show rules (absolute, periodic, on-valid, on-exit) and periodic set rules in a real simulation (cmd/bondmachine -sim) against
-    their stated meaning read off a reference run of the VM: a show rule prints the value the named object has after that tick, in
-    rule order; a periodic rule acts on every tick that is a multiple of its period; an on-valid rule fires on exactly the ticks at
-    which the object's valid flag rises; an on-exit rule fires once, when the simulation stops; suspended rules do nothing"""
+    the rule-firing model Front/SimRun.v (the one the C15 run theorems are about): the model says which set rules act at which tick
+    and which objects are printed at which tick, in which order; the values come from a reference run of the VM under exactly
+    those sets"""
     import os, shutil, subprocess, tempfile
     import c07
     c07.build_tools()
     n = 8 if a.tier == "quick" else 80
     viol, done = [], 0
     hist = {"abs_show": 0, "rel_show": 0, "onvalid_show": 0, "onexit_show": 0, "rel_set": 0, "abs_set": 0, "suspended": 0, "stop_on_valid": 0}
+    ticks = 16
+    cases = []
+    for k in range(n):
+        N = rnd.choice([1, 2])
+        prog = ["i2r r%d i%d" % (i, i) for i in range(N)] + ["add r0 r3", "inc r2", "r2owa r0 o0", "r2o r2 o1", "j 0"]
+        M = 2
+        ops = sorted(set(l.split()[0] for l in prog) | {"nop"})
+        spec = {"rsize": 8, "procs": [{"arch": {"R": 2, "N": N, "M": M, "L": 0, "O": 4, "ops": ops, "mode": "ha", "rsize": 8}, "prog": prog}],
+                "inputs": N, "outputs": M, "bonds": [["p0i%d" % i, "i%d" % i] for i in range(N)] + [["o%d" % o, "p0o%d" % o] for o in range(M)]}
+        objs = ["i%d" % i for i in range(N)] + ["o0", "o1", "p0r0", "p0r2", "p0r3", "p0o0", "p0o1"] + ["p0i%d" % i for i in range(N)]
+        rules = []
+        for _ in range(rnd.randint(1, 3)):
+            if rnd.random() < 0.4:
+                rules.append({"kind": "set", "period": rnd.choice([2, 3, 5]), "tick": 0, "obj": rnd.choice(["i0", "p0r3"]), "val": rnd.randrange(1, 200)})
+            else:
+                rules.append({"kind": "set", "tick": rnd.randrange(ticks - 2), "obj": rnd.choice(["i%d" % rnd.randrange(N), "p0r3"]), "val": rnd.randrange(1, 200)})
+        # at most one set rule per object (periodic and absolute sets of one object have no stated order)
+        seen, uniq = set(), []
+        for r in rules:
+            if r["obj"] not in seen:
+                seen.add(r["obj"])
+                uniq.append(r)
+        rules = uniq
+        for _ in range(rnd.randint(2, 5)):
+            w = rnd.choice(["abs", "abs", "rel", "onvalid", "onexit"])
+            r = {"kind": "show", "when": w, "obj": rnd.choice(objs)}
+            if w == "abs":
+                r["tick"] = rnd.randrange(ticks)
+            elif w == "rel":
+                r["period"] = rnd.choice([1, 2, 3, 4, 7])
+            elif w == "onvalid":
+                r["obj"] = "o0"
+            rules.append(r)
+        for r in rules:
+            r["suspended"] = rnd.random() < 0.2
+        stop = rnd.random() < 0.5          # -sim-stop-on-valid-of 0: the run ends when o0 is valid at the start of an iteration
+        cases.append({"spec": spec, "rules": rules, "stop": stop, "objs": objs})
+    # the model: which set rules act at which tick
+    body = SIMRUN_HDR + "Definition M := Eval vm_compute in %s.\n" % C.cq_list(
+        ["\n sets_trace %s %d" % (C.cq_list([coq_rule(r) for r in c["rules"]]), ticks) for c in cases])
+    sets_tr = C.eval_cases("C15", "sets", body, timeout=1200)["M"]
+    reqs = []
+    for c, tr in zip(cases, sets_tr):
+        explicit = []
+        for t, idxs in enumerate(tr):
+            for i in idxs:
+                r = c["rules"][i]
+                explicit.append({"tick": t, "period": 0, "obj": r["obj"], "val": r["val"], "suspended": False})
+        reqs.append({"bm": c["spec"], "env": [], "ticks": ticks, "rules": explicit})
+    refs = simlib.run_sims(reqs)
+    # the model: what is printed at which tick
+    rows = []
+    for c, ref in zip(cases, refs):
+        outv = [bool(t["outv"][0]) for t in ref.get("ticks", [])] or [False] * ticks
+        rows.append("\n shows_trace %s %s %s %s false %d 0%%N" % (C.cq_list([coq_rule(r) for r in c["rules"]]), C.cq_list([C.cq_string(o) for o in c["objs"]]),
+                                                                  C.cq_bool(c["stop"]), C.cq_list([C.cq_bool(b) for b in outv]), ticks))
+    shows_tr = C.eval_cases("C15", "shows", SIMRUN_HDR + "Definition M := Eval vm_compute in %s.\n" % C.cq_list(rows), timeout=1200)["M"]
     work = tempfile.mkdtemp(prefix="verif-c15s-")
     try:
-        for k in range(n):
-            N = rnd.choice([1, 2])
-            prog = ["i2r r%d i%d" % (i, i) for i in range(N)] + ["add r0 r3", "inc r2", "r2owa r0 o0", "r2o r2 o1", "j 0"]
-            M = 2
-            ops = sorted(set(l.split()[0] for l in prog) | {"nop"})
-            spec = {"rsize": 8, "procs": [{"arch": {"R": 2, "N": N, "M": M, "L": 0, "O": 4, "ops": ops, "mode": "ha", "rsize": 8}, "prog": prog}],
-                    "inputs": N, "outputs": M, "bonds": [["p0i%d" % i, "i%d" % i] for i in range(N)] + [["o%d" % o, "p0o%d" % o] for o in range(M)]}
-            ticks = 16
-            objs = ["i%d" % i for i in range(N)] + ["o0", "o1", "p0r0", "p0r2", "p0r3", "p0o0", "p0o1"] + ["p0i%d" % i for i in range(N)]
-            rules = []
-            for _ in range(rnd.randint(1, 3)):
-                if rnd.random() < 0.4:
-                    rules.append({"kind": "set", "period": rnd.choice([2, 3, 5]), "tick": 0, "obj": rnd.choice(["i0", "p0r3"]), "val": rnd.randrange(1, 200)})
-                else:
-                    rules.append({"kind": "set", "tick": rnd.randrange(ticks - 2), "obj": rnd.choice(["i%d" % rnd.randrange(N), "p0r3"]), "val": rnd.randrange(1, 200)})
-            # at most one set rule per object (periodic and absolute sets of one object have no stated order)
-            seen, uniq = set(), []
-            for r in rules:
-                if r["obj"] not in seen:
-                    seen.add(r["obj"])
-                    uniq.append(r)
-            rules = uniq
-            for _ in range(rnd.randint(2, 5)):
-                w = rnd.choice(["abs", "abs", "rel", "onvalid", "onexit"])
-                r = {"kind": "show", "when": w, "obj": rnd.choice(objs)}
-                if w == "abs":
-                    r["tick"] = rnd.randrange(ticks)
-                elif w == "rel":
-                    r["period"] = rnd.choice([1, 2, 3, 4, 7])
-                elif w == "onvalid":
-                    r["obj"] = "o0"
-                rules.append(r)
-            for r in rules:
-                r["suspended"] = rnd.random() < 0.2
-            stop = rnd.random() < 0.5          # -sim-stop-on-valid-of 0: the run ends when o0 is valid at the start of an iteration
-            sets = [{"tick": r["tick"], "period": r.get("period", 0), "obj": r["obj"], "val": r["val"], "suspended": r["suspended"]} for r in rules if r["kind"] == "set"]
-            ref = simlib.run_sims([{"bm": spec, "env": [], "ticks": ticks, "rules": sets}])[0]
+        for k, (c, ref, tr) in enumerate(zip(cases, refs, shows_tr)):
+            spec, rules, stop = c["spec"], c["rules"], c["stop"]
             saved = C.jsonl(C.sh([C.BMH, "c11", "save"], input=json.dumps({"bm": spec}) + "\n").stdout)[0]
             d = os.path.join(work, "c%d" % k)
             os.mkdir(d)
@@ -238,39 +273,21 @@ def dynamic_shows(res, rnd, a):
                 else:
                     hist[{"abs": "abs_show", "rel": "rel_show", "onvalid": "onvalid_show", "onexit": "onexit_show"}[r["when"]]] += 1
             hist["stop_on_valid"] += int(stop)
-            # what was printed: per iteration, the show line (if any)
+            # what was printed: the show lines, each under the header of the tick it follows
             got, cur = [], None
             for line in p.stdout.splitlines():
                 if line.startswith("Absolute tick:"):
                     cur = int(line.split(":")[1])
                 elif cur is not None and re.fullmatch(r"[0-9]+( [0-9]+)* ?", line):
                     got.append((cur, [int(x) for x in line.split()]))
-            # what the rules say: Showables are numbered in rule order (one per distinct object), printed in that order
-            active = [r for r in rules if r["kind"] == "show" and not r["suspended"]]
-            order = []
-            for r in active:
-                if r["obj"] not in order:
-                    order.append(r["obj"])
+            # what the model says: rows (tick, stopping?, positions of the printed objects); in the stopping iteration nothing is
+            # stepped or printed before the show line, so it follows the previous tick's header and shows the previous state
             snaps = ref["ticks"]
             want = []
-            for t in range(ticks):
-                exiting = stop and t > 0 and snaps[t - 1]["outv"][0]
+            for row in tr:
+                t, exiting, idxs = row[0], bool(row[1]), row[2:]
                 snap = snaps[t - 1] if exiting else snaps[t]
-                fire = set()
-                for r in active:
-                    if r["when"] == "abs" and r["tick"] == t:
-                        fire.add(r["obj"])
-                    elif r["when"] == "rel" and t % r["period"] == 0:
-                        fire.add(r["obj"])
-                    elif r["when"] == "onexit" and exiting:
-                        fire.add(r["obj"])
-                    elif r["when"] == "onvalid" and not exiting and snaps[t]["outv"][0] and not (t > 0 and snaps[t - 1]["outv"][0]):
-                        fire.add(r["obj"])
-                if fire:
-                    # in the stopping iteration nothing is stepped or printed before the show line: it follows the previous tick's header
-                    want.append((t - 1 if exiting else t, [object_value(snap, o) for o in order if o in fire]))
-                if exiting:
-                    break
+                want.append((t - 1 if exiting else t, [object_value(snap, c["objs"][i]) for i in idxs]))
             if got != want:
                 k2 = next((j for j in range(max(len(got), len(want))) if j >= len(got) or j >= len(want) or got[j] != want[j]), 0)
                 viol.append(("with rules %s%s the simulation prints %s (after the header of tick, values); applying the rules as written gives %s"
